@@ -344,6 +344,8 @@ def _one_instance(ctx: ProcCtx, p, op, opname, args, props, live, rec, env, boun
     rec["q_src"] = str(q)
     if "C17" in props:
         c17_check(q, bounds, rec, tier, rng)
+    if "C06" in props:
+        c06_check(p, q, rec, ["divide_loop", "reorder_loops", "unroll_loop", "lift_scope", "split_write"], env, rng)
     is_eqv, ign = ignore_cfg_of(p_ir, q_ir)
     rec["reported_cfg"] = sorted(f"{a}.{b}" for a, b in ign)
     rec["tracked_eqv"] = bool(is_eqv)
@@ -505,6 +507,130 @@ def c17_check(q, bounds, rec, tier, rng, force_solver=False):
     rec["c17"] = "ok" if (mis is None and rec["c17_text_equal"] and rec.get("c17_behaviour", "equal") in ("equal", "skipped")) else "mismatch"
     if rec["c17"] == "mismatch":
         rec["c17_reparsed"] = str(q2)
+
+
+def _leaf_kinds():
+    from exo.core.LoopIR import LoopIR
+
+    return (LoopIR.Assign, LoopIR.Reduce, LoopIR.Call, LoopIR.WriteConfig, LoopIR.Alloc, LoopIR.WindowStmt, LoopIR.Pass)
+
+
+def _src_tag(node):
+    si = node.srcinfo
+    return (getattr(si, "filename", None), getattr(si, "lineno", None), getattr(si, "col_offset", None))
+
+
+def c06_check(p, q, rec, second_ops, env, rng):
+    """forward every statement / block / gap cursor of p to q (C06 layer 2)"""
+    from exo.core.LoopIR import LoopIR
+    from exo.core.internal_cursors import InvalidCursorError
+
+    leaf = _leaf_kinds()
+    problems = []
+    n_fwd = n_inv = 0
+    stmts = SE.stmt_cursors(p)
+    fwd_ok = {}
+    for c in stmts:
+        node = c._impl._node
+        try:
+            f = q.forward(c)
+            fnode = f._impl._node
+        except InvalidCursorError:
+            n_inv += 1
+            continue
+        except NotImplementedError:
+            rec["c06"] = "no_forwarding"
+            return
+        except Exception as ex:
+            problems.append({"cursor": SE.describe_arg(c), "problem": f"forwarding raised {type(ex).__name__}: {str(ex)[:120]}"})
+            continue
+        n_fwd += 1
+        fwd_ok[id(node)] = f
+        # never dangling: the forwarded path must resolve inside q's tree
+        if isinstance(node, leaf):
+            if type(fnode) is not type(node) and not (isinstance(node, (LoopIR.Assign, LoopIR.Reduce)) and isinstance(fnode, (LoopIR.Assign, LoopIR.Reduce))):
+                problems.append({"cursor": SE.describe_arg(c), "problem": f"a {type(node).__name__} statement `{str(node).strip()[:60]}` is forwarded to a {type(fnode).__name__} `{str(fnode).strip()[:60]}`"})
+            elif _src_tag(fnode) != _src_tag(node) and _src_tag(node)[1] is not None:
+                problems.append({"cursor": SE.describe_arg(c), "problem": f"statement `{str(node).strip()[:60]}` (line {_src_tag(node)[1]}) is forwarded to a different statement `{str(fnode).strip()[:60]}` (line {_src_tag(fnode)[1]})"})
+        elif isinstance(node, (LoopIR.For, LoopIR.If)):
+            if not isinstance(fnode, LoopIR.stmt):
+                problems.append({"cursor": SE.describe_arg(c), "problem": f"a {type(node).__name__} is forwarded to a non-statement {type(fnode).__name__}"})
+    # gaps: the anchor of a forwarded gap is the forwarded anchor
+    for g in SE.gap_cursors(p)[:40]:
+        try:
+            fg = q.forward(g)
+            _ = fg._impl._anchor._node
+            n_fwd += 1
+        except InvalidCursorError:
+            n_inv += 1
+        except NotImplementedError:
+            break
+        except Exception as ex:
+            problems.append({"cursor": SE.describe_arg(g), "problem": f"gap forwarding raised {type(ex).__name__}: {str(ex)[:120]}"})
+    # blocks: a forwarded block contains the forwarded statements, in order
+    for b in SE.block_cursors(p)[:60]:
+        if len(b) < 2:
+            continue
+        try:
+            fb = q.forward(b)
+            nodes = [c._impl._node for c in fb]
+            n_fwd += 1
+        except InvalidCursorError:
+            n_inv += 1
+            continue
+        except NotImplementedError:
+            break
+        except Exception as ex:
+            problems.append({"cursor": SE.describe_arg(b), "problem": f"block forwarding raised {type(ex).__name__}: {str(ex)[:120]}"})
+            continue
+        want = []
+        for c in b:
+            f = fwd_ok.get(id(c._impl._node))
+            if f is not None:
+                want.append(f._impl._node)
+        for wn in want:
+            if not any(_contains(nd, wn) for nd in nodes):
+                problems.append({"cursor": SE.describe_arg(b), "problem": f"forwarded block does not contain the forwarded statement `{str(wn).strip()[:60]}`"})
+                break
+    rec["c06_forwarded"] = n_fwd
+    rec["c06_invalid"] = n_inv
+    # cursors handed directly to an operation behave as if forwarded explicitly first
+    ops = SE.all_ops()
+    n_cmp = 0
+    for opname in second_ops:
+        if opname not in ops:
+            continue
+        for c in stmts[:8]:
+            try:
+                fc = q.forward(c)
+            except Exception:
+                continue
+            extra = {"divide_loop": [2, ["fo", "fi"]], "reorder_loops": [], "unroll_loop": [], "lift_scope": [], "parallelize_loop": [], "inline_assign": [], "delete_pass": None, "split_write": []}.get(opname)
+            if extra is None:
+                continue
+            r1, e1, _ = apply_op(ops[opname], q, [c] + list(extra))
+            r2, e2, _ = apply_op(ops[opname], q, [fc] + list(extra))
+            n_cmp += 1
+            s1 = str(r1) if r1 is not None else "raise"
+            s2 = str(r2) if r2 is not None else "raise"
+            if s1 != s2:
+                problems.append({"cursor": SE.describe_arg(c), "problem": f"{opname} with the un-forwarded cursor gives a different result than with the explicitly forwarded one", "a": s1[:300], "b": s2[:300]})
+    rec["c06_direct_vs_forwarded"] = n_cmp
+    if problems:
+        rec["c06_problems"] = problems[:5]
+    rec["c06"] = "bad" if problems else "ok"
+
+
+def _contains(node, target):
+    from exo.core.LoopIR import LoopIR
+
+    if node is target:
+        return True
+    for attr in ("body", "orelse"):
+        for ch in getattr(node, attr, []) or []:
+            if _contains(ch, target):
+                return True
+    return False
 
 
 def strip(rec):
